@@ -31,6 +31,25 @@ pub fn unhx(s: &str) -> Vec<u8> {
     }
 }
 
+/// `<hex of 4 or 16 bytes>[%<scope id>[^<flowinfo>]]`: an IPv6 socket address may carry a scope id and flow info,
+/// which are not part of what a record stores
+fn sock_of(arg: &str, port: u16) -> SocketAddr {
+    let (addr, extra) = match arg.split_once('%') {
+        Some((a, e)) => (a, Some(e)),
+        None => (arg, None),
+    };
+    match (ip_of(&unhx(addr)), extra) {
+        (IpAddr::V6(ip), Some(e)) => {
+            let (scope, flow) = match e.split_once('^') {
+                Some((s, f)) => (s.parse().unwrap_or(0), f.parse().unwrap_or(0)),
+                None => (e.parse().unwrap_or(0), 0),
+            };
+            SocketAddr::V6(std::net::SocketAddrV6::new(ip, port, flow, scope))
+        }
+        (ip, _) => SocketAddr::new(ip, port),
+    }
+}
+
 fn ip_of(b: &[u8]) -> IpAddr {
     if b.len() == 4 {
         let mut a = [0u8; 4];
@@ -281,8 +300,8 @@ fn run_op<K: Kt>(st: &mut State<K>, t: &[&str]) -> String {
                 let b = if a[2] == "none" { None } else { Some(String::from_utf8(unhx(a[2])).unwrap()) };
                 unit(e.set_client_info(n, v, b, key))
             }
-            "set_udp_socket" => unit(e.set_udp_socket(SocketAddr::new(ip_of(&unhx(a[0])), a[1].parse().unwrap()), key)),
-            "set_tcp_socket" => unit(e.set_tcp_socket(SocketAddr::new(ip_of(&unhx(a[0])), a[1].parse().unwrap()), key)),
+            "set_udp_socket" => unit(e.set_udp_socket(sock_of(a[0], a[1].parse().unwrap()), key)),
+            "set_tcp_socket" => unit(e.set_tcp_socket(sock_of(a[0], a[1].parse().unwrap()), key)),
             "remove_udp_socket" => unit(e.remove_udp_socket(key)),
             "remove_udp6_socket" => unit(e.remove_udp6_socket(key)),
             "remove_tcp_socket" => unit(e.remove_tcp_socket(key)),
@@ -483,7 +502,7 @@ fn run<K: Kt>(input: &mut dyn BufRead, out: &mut dyn Write) {
                         let _ = logs();
                         format!("ok rest={rest} {lg} {rec}")
                     }
-                    Ok((Err(_), _)) => "err".into(),
+                    Ok((Err(er), _)) => format!("err e={}", format!("{er:?}").replace(' ', "_")),
                     Err(_) => format!("panic {}", take_panic_msg()),
                 }
             }
